@@ -28,6 +28,9 @@ deriving Repr, DecidableEq
 structure Cfg where
   cap : Nat := 0                 -- `max_pending`, 0 = unbounded (ignored by `conflating`)
   policy : Policy := .queue
+  /-- conflating only, used by the multi-source model `PushQueueN` (ignored here): the output is a
+      COLLECTION (`TSD`), the payloads are collection deltas merged into an accumulator -/
+  dict : Bool := false
 deriving Repr, DecidableEq
 
 inductive SendKind where
